@@ -517,8 +517,14 @@ fn compile_vote_delegation_certificate(
     x: &tir::AdHocDirective,
     network: Network,
 ) -> Result<primitives::Certificate, Error> {
-    let stake = coercion::expr_into_stake_credential(&x.data["stake"], network)?;
-    let drep = coercion::expr_into_bytes(&x.data["drep"])?;
+    let field = |name: &str| {
+        x.data
+            .get(name)
+            .ok_or_else(|| Error::MissingExpression(format!("vote delegation {name}")))
+    };
+
+    let stake = coercion::expr_into_stake_credential(field("stake")?, network)?;
+    let drep = coercion::expr_into_bytes(field("drep")?)?;
     let drep = primitives::DRep::Key(coercion::bytes_into_hash(drep.as_slice())?);
 
     Ok(primitives::Certificate::VoteDeleg(stake, drep))
